@@ -7,6 +7,8 @@ import sys
 import tempfile
 
 from bounded.harness import emit, payload, quiet_stdout
+from bounded.harness import install_watchdog
+install_watchdog()
 
 P = payload()
 tier = P.get("tier", "quick")
@@ -51,14 +53,15 @@ setup(c0)
 c0.close_db_conn() if False else c0.db_conn.close()
 
 PAGES = ["plain text", "{{a|x}} and {{a}}", "{{nw}} {{nw}} <nowiki>q</nowiki>", "{{#time:Y-m-d|1 mars 2020}} {{formatnum:87654321.5}}",
-         "{{#time:Y-m-d|02/03/2020}} {{#time:j F Y|10.11.2019}} {{formatnum:1234567.25}}", "{{loop}}", "<pre>unclosed pre\n* li", "==H==\n* a\n** b", "{{#expr:1+}} {{#if:x|y}}",
+         "{{#time:Y-m-d|02/03/2020}} {{#time:j F Y|10.11.2019}} {{formatnum:1234567.25}}", "{{#time:t|2004-02-01}} {{#time:L t|2024-02-10}}",
+         "{{#time:t|2007-02-01}} {{#time:t|2023-02-20}} {{SITENAME}} {{NUMBEROFUSERS}}", "{{loop}}", "<pre>unclosed pre\n* li", "==H==\n* a\n** b", "{{#expr:1+}} {{#if:x|y}}",
          "{| \n| cell\n|}", "'''bold ''it", "{{:Foo:Bar}}", "{{PAGESIZE:Foo:Bar}}", "{{#lst:Glossary|s}}", "{{:Glossary}}",
          "<foo>x</foo> <b>y</b>", "{{h|z}}", "[[L|{{a}}]] [http://x y]", "<nowiki>{{a}}</nowiki><!-- c -->", "{{#invoke}}",
          "{{nosuch|{{a}}}}", ":; mixed\n#* list", "<ref name=x>r</ref><references/>", "{{a|\n}}", "</pre> </b> |}", "{{#tag:span|x}}",
          "{{t|" * 700 + "x" + "}}" * 700, "[[L|" * 700 + "x"]
 DEEP = [i for i, p in enumerate(PAGES) if len(p) > 1000]
 if tier == "quick":
-    PAGES = PAGES[:19] + PAGES[-2:]
+    PAGES = PAGES[:21] + PAGES[-2:]
     DEEP = [i for i, p in enumerate(PAGES) if len(p) > 1000]
 
 
